@@ -1300,6 +1300,11 @@ def run_case(ctx, cirq, cfg, circuit, kind, deep, ignore, checks, case_no, prng_
             ctx.count(cfg.id + ':documented-error', [rep['circuit'], deep, ignore], False)
             return
         import traceback
+        if input_reads_missing_record(cirq, circuit):
+            # the generated circuit is not executable itself (a control reads an index beyond the records of its key, or a key nobody
+            # measures): every simulator refuses it, so a transformer that refuses it too says nothing about the property
+            ctx.count(cfg.id + ':input-not-executable', [rep['circuit'], deep, ignore], False)
+            return
         sig = f'{cfg.name}:raises:{type(e).__name__}:{error_class(str(e))}'
         if subcircuit_unitary_raises(cirq, circuit):
             sig = 'gate-defect:subcircuit-unitary-raises'
@@ -1585,6 +1590,21 @@ def keys_lose_path(cirq, circuit, flat_ops):
     return declared != recorded and any(op.tags and cirq.is_measurement(op) for op in flat_ops)
 
 
+
+
+def input_reads_missing_record(cirq, circuit):
+    """Does running the circuit fail because a classically controlled operation reads a record that does not exist?"""
+    try:
+        if cirq.is_parameterized(circuit):
+            return False
+        cirq.Simulator(seed=0).run(circuit, repetitions=1)
+        return False
+    except IndexError as ex:
+        return 'index out of range' in str(ex)
+    except ValueError as ex:
+        return 'missing when testing classical control' in str(ex) or 'Measurement key' in str(ex) and 'missing' in str(ex)
+    except Exception:
+        return False
 
 def measures_inside_a_loop(cirq, circuit):
     """Does some CircuitOperation with |repetitions| >= 2 (at any depth) hold a measurement?  Its measurements are followed by the
